@@ -108,6 +108,7 @@ func init() {
 					spec.MaxIterations = uint64(50 + r.IntN(3000))
 				}
 				spec.IgnoreDropped = true
+				spec.Interactive, spec.Verbose = r.IntN(3) == 0, r.IntN(4) == 0
 				p := c01RunParams{Spec: spec, FailEvery: pick(r, 0, 1, 2, 3, 10), Body: pick(r, "instant", "spin", "sleep", "yield"), Snapshots: i%2 == 0, Reps: 1}
 				if mode == "filespan" {
 					p.Body, p.Snapshots, p.FailEvery = "span", false, pick(r, 2, 3)
@@ -488,6 +489,10 @@ func c01RunOnce(c *core.Case, o *core.Outcome, p c01RunParams, inst *metrics.Met
 	var lastS, lastF uint64
 	lines := 0
 	for _, e := range l.Events() {
+		if e.Kind == "out.print" && containsAll(e.S, "✔") {
+			lines++
+			continue
+		}
 		if e.Kind != "out.log" || !containsAll(e.S, "|progress|") {
 			continue
 		}
